@@ -39,8 +39,9 @@ CLAIMS = {
         "as leaf ranges; TLC checks in every reachable state that each extracted chain recomputes the root by the independent chain formula (ProofsHold), "
         "that the tree equals the independently defined canonical merge (Canonical), WithinLimit and RefusalsLeaveNoTrace, and exports every complete "
         "behaviour; each is replayed on the real builder: accept/refuse per leaf, root hash/level and every chain link by link, plus re-aggregation of the "
-        "extracted chains by the reference formula.",
-   note="Bounds: all leaf sequences <=4..5 (quick) / <=5..7 (thorough) over {hash,metadata} x level alphabets for maximum levels {none,2,3,255}; uniform trees to 33/70 leaves. The block-signer half (masking, metadata, reset==new, signatures) is not yet bound. Defect F-C16-1 fixed.",
+        "extracted chains by the reference formula. BlockSigner.tla models the signer as the builder with the metadata and masking leaf processors (MetadataIsFirstLink, "
+        "MaskChainAdvances, ResetIsNew) and exports every history with the expected first links, entry levels and root level.",
+   note="Bounds: all leaf sequences <=4..5 (quick) / <=5..7 (thorough) over {hash,metadata} x level alphabets for maximum levels {none,2,3,255}; uniform trees to 33/70 leaves. Block signer: every history of BlockSigner.tla (<= 3/4 leaves per block, levels {0,2}, metadata yes/no, masked yes/no, one reset at any point; quick = 700 sampled histories) is replayed over the real blocking TCP client with the reference aggregator: root hash and level on the wire, every leaf signature verified by libksi for the leaf's hash and level, first links = metadata then mask H(prevLeaf||iv), chain re-aggregated by the reference formula, prevLeaf chain, reset == new.",
    technique="TLC model checking of the builder state machine + replay of all TLC behaviours into KSI_TreeBuilder with hashlib-concretised terms"),
  "C15": dict(level="model_checking", design_ref="DESIGN.md 4/C15",
    text="HaService.tla models the HA bookkeeping (expected answers per request, first response wins, stored error vs error notices, failure only when "
